@@ -539,7 +539,7 @@ def witness_shift(ctx):
 
 
 def c12(ctx):
-    outs = sm_check(ctx, extra={"post": "c12_shift"})
+    outs = sm_check(ctx, extra={"post": "c12_shift", "record_mw": True})
     keep_only(ctx, lambda v: not v["kind"].startswith("outcome:"))
     ctx.coverage["shift_pairs"] = sum(o.get("shift_pairs", 0) for o in outs)
     ctx.coverage["shift_pairs_with_outages"] = sum(o.get("shift_pairs_with_outages", 0) for o in outs)
